@@ -13,7 +13,7 @@ TRUSTED_BASE = [
 ]
 ASSUMPTIONS = [
     "documented sharing not claimed: add_bundle(ProvBundle object) re-parents the given object; flattened() of a "
-    "bundle-free document returns the same object; record.copy() keeps the same bundle",
+    "bundle-free document returns the same object; record.copy() keeps the same bundle (but must not share attribute state)",
 ]
 
 MUTATORS = ("AddNs", "SetDefault", "Resolve", "NewBundle", "NewRecord", "Factory", "AddAttrs", "SetTime", "AddType",
@@ -49,6 +49,16 @@ class C12Oracle(worldprop.Oracle):
                 continue        # the same object under two handles (flattened of a bundle-free document)
             if observable_doc(d) != obs:
                 self.fail(idx, "a call changed a document other than its target", call=op[0], changed_doc=i, target=t)
+        # no two record objects anywhere share their attribute dictionary or one of its value sets
+        owner = {}
+        for di, d in enumerate(self.im.docs):
+            for c in [d] + list(d.bundles):
+                for r in c._records:
+                    for key_obj in [r._attributes] + list(r._attributes.values()):
+                        o = owner.setdefault(id(key_obj), r)
+                        if o is not r:
+                            self.fail(idx, "two record objects share mutable attribute state", call=op[0], doc=di,
+                                      record=str(r.identifier))
         # a deriving call returns new objects all the way down
         if op[0] in ("Unified", "DocFromRecords") or (op[0] == "Flattened" and isinstance(ob, list) and ob[0] == "handle"
                                                        and int(ob[1]) == len(self.pre)):
@@ -67,8 +77,39 @@ class C12Oracle(worldprop.Oracle):
                     for r in c._records:
                         if id(r) in old_recs:
                             self.fail(idx, "derived document shares a record object with a source", call=op[0])
-                        for vs in r._attributes.values():
-                            pass
+
+
+    def finish(self, ops):
+        # record.copy(): an equal record that shares no mutable state with its source
+        import prov.model as M
+        idx = len(ops)
+        recs = [(di, r) for di, d in enumerate(self.im.docs) for c in [d] + list(d.bundles) for r in c._records]
+        step = max(1, len(recs) // 12)
+        for di, r in recs[::step][:12]:
+            # records only: the copy lives in the same bundle (documented), so validating its attribute names may
+            # register an inherited namespace in that bundle's own table — not shared record state
+            def recs_only():
+                return [tuple((k, rs) for k, rs, _ in observable_doc(d)) for d in self.im.docs]
+            before = recs_only()
+            try:
+                cp = r.copy()
+            except Exception as e:
+                self.fail(idx, "record.copy() raised", exc=repr(e)[:200], record=str(r.identifier))
+                continue
+            if cp is r or not (cp == r):
+                self.fail(idx, "record.copy() is not a new equal record", record=str(r.identifier))
+            shared = {id(r._attributes)} | {id(v) for v in r._attributes.values()}
+            if id(cp._attributes) in shared or any(id(v) in shared for v in cp._attributes.values()):
+                self.fail(idx, "record.copy() shares its attribute dictionary or a value set with the source",
+                          record=str(r.identifier))
+            names = [a for a, _ in r.extra_attributes][:3] + [M.PROV_LABEL, M.PROV_TYPE]
+            for a in names:
+                try:
+                    cp.add_attributes([(a, "c12-added-to-the-copy")])
+                except Exception:
+                    pass
+            if recs_only() != before:
+                self.fail(idx, "changing a copied record changed its source", record=str(r.identifier), doc=di)
 
 
 def post(g):
@@ -93,8 +134,9 @@ def run(tier, seed, log, model_runs=True, enlarged=False):
                                    "document from records, update, add_bundle of a document, add_record) followed by mutators on "
                                    "arbitrary documents (namespaces, default namespace, records, attributes, bundles); after every "
                                    "call the strict content, record order, registered namespaces and default namespace of every "
-                                   "document other than the call's target must be unchanged, and derived documents must consist "
-                                   "of new objects; non-trivial = a deriving call followed by a mutator",
+                                   "document other than the call's target must be unchanged, derived documents must consist "
+                                   "of new objects, and no two record objects may share their attribute dictionary or a value set; at the end sampled records are copied with record.copy() and the copy is changed under existing and "
+                                   "new attribute names; non-trivial = a deriving call followed by a mutator",
                          theorem_note="C12_frame over Interp.step")
 
 
